@@ -153,6 +153,13 @@ def run(F, R):
             proof = _slice_after_prefix(bv, s_)
         elif desc in ("api:slice::split_at_mut", "api:slice::copy_from_slice", "api:slice::split_at"):
             proof = _array_prefix_proof(bv, s_)
+        elif desc == "api:IndexMut::index_mut" and _array_prefix_proof(bv, s_):
+            # parts[..v.len()] on the zeroed [_; 4] with v: [_; N], N <= 4 by type
+            ix = strip(bv.trace_op(s_["t"]["args"][1])) if len(s_["t"].get("args", [])) > 1 else ("undef",)
+            if ix[0] == "agg" and (ix[2] or "").endswith("RangeTo") and len(ix[3]) == 1:
+                e_ = strip(ix[3][0])
+                if e_[0] == "call" and lib.norm(e_[1]).endswith("::len") and ("param", 1) in [strip(x) for x in walk(e_)]:
+                    proof = _array_prefix_proof(bv, s_) + " (range ..v.len())"
         elif desc == "panic:begin_panic" and W.is_select_closure(bv.id):
             proof = "select! keeps a live arm (C11-R5 typestate re-evaluated here)" if select_ok.get(bv.id) else None
         if proof:
